@@ -19,7 +19,7 @@ Proof.
   destruct o; cbn [op_target] in T; try discriminate; inversion T; subst p.
   - destruct (lookup ptr (items g)) as [it|]; [|auto]. destruct (_ && _); [|auto].
     cbn [items log set_items]. split; auto. now apply lookup_update_other.
-  - destruct (lookup ptr (items g)) as [it|]; [|auto]. unfold gc_dealloc.
+  - destruct (lookup ptr (items g)) as [it|]; [|auto]. destruct (dealloc_ok it); [|auto]. unfold gc_dealloc.
     pose proof (only_unregister run_fin true (fun x => x = ptr) ptr g (only_call_fin FIN_FUEL) eq_refl) as (A & B & _).
     destruct (ptr =? 0).
     + split; [apply A; auto|]. intros e I E. destruct (B e I) as [|X]; auto. congruence.
